@@ -34,6 +34,19 @@ WITNESSES = [("WitRefused", "{32}", 1), ("WitExistAtMax", "{32}", 1), ("WitExist
 MAX_REPORTS = 8
 
 
+def _printed(r, tag="BEH"):
+    """Fast version of TLCResult.printed(): the TLA+ string escapes (\\" and \\\\) are JSON escapes."""
+    pre = '<<"%s", "' % tag
+    res = []
+    for line in r.out.splitlines():
+        if line.startswith(pre) and line.endswith('">>'):
+            try:
+                res.append(json.loads(json.loads('"' + line[len(pre):-3] + '"')))
+            except Exception as e:
+                raise Broken("cannot parse TLC output line: %s (%s)" % (line[:200], e))
+    return res
+
+
 def _set(names):
     return "{" + ", ".join('"%s"' % n for n in sorted(names)) + "}"
 
@@ -91,7 +104,7 @@ def generate(ctx):
     def add(r, src):
         seen = set()
         out = []
-        for b in r.printed("BEH"):
+        for b in _printed(r):
             k = json.dumps(b, sort_keys=True)
             if k not in seen:
                 seen.add(k)
@@ -123,18 +136,23 @@ def generate(ctx):
         tlc.must_ok(r, "behaviour generation depth 3")
         counts["bfs3"] = add(r, "bfs3")
     # witness-directed: the rare situations around the 32-member limit, 1-2 operations + 1 more
-    for (w, sizes, depth) in WITNESSES:
-        for dev in ([], ALL_DEVS):
-            c = _cfg(ctx, "w.cfg", dev, True, "ops", depth + 1, sizes, w)
-            r = tlc.tlc("TraceState", c, rundir=ctx.rundir.path, workers=1, timeout_s=300, tag=w)
-            ctx.add_tlc("witness %s (Dev %s)" % (w, "all" if dev else "{}"), r)
-            if r.status != "invariant" or not r.printed("BEH"):
-                raise Broken("witness %s not reachable in the model (vacuity): %s" % (w, r.status))
-            counts["wit"] = counts.get("wit", 0) + add(r, w)
+    def wit(args):
+        (w, sizes, depth), dev = args
+        c = _cfg(ctx, "w-%s-%d.cfg" % (w, len(dev)), dev, True, "ops", depth + 1, sizes, w)
+        return tlc.tlc("TraceState", c, rundir=ctx.rundir.path, workers=1, timeout_s=300, tag="%s-%d" % (w, len(dev)))
+
+    wjobs = [(wd, dev) for wd in WITNESSES for dev in ([], ALL_DEVS)]
+    with cf.ThreadPoolExecutor(max_workers=4) as ex:
+        wres = list(ex.map(wit, wjobs))
+    for ((w, sizes, depth), dev), r in zip(wjobs, wres):
+        ctx.add_tlc("witness %s (Dev %s)" % (w, "all" if dev else "{}"), r)
+        if r.status != "invariant" or not _printed(r):
+            raise Broken("witness %s not reachable in the model (vacuity): %s" % (w, r.status))
+        counts["wit"] = counts.get("wit", 0) + add(r, w)
     # random walks of 6 operations over all sizes
     c = _cfg(ctx, "gs.cfg", ALL_DEVS, True, "ops", 6, "{0, 1, 2, 31, 32}", "EmitAll")
     r = tlc.tlc("TraceState", c, rundir=ctx.rundir.path, workers=1, timeout_s=600,
-                simulate={"num": 1500 if thorough else 250, "depth": 8}, seed=ctx.seed + 14, tag="sim")
+                simulate={"num": 600 if thorough else 120, "depth": 8}, seed=ctx.seed + 14, tag="sim")
     if r.status != "ok":
         raise Broken("simulate failed: %s\n%s" % (r.status, r.out[-1500:]))
     counts["simulate"] = add(r, "simulate")
@@ -318,14 +336,25 @@ def run(ctx):
         "traces_validated: TLC behaviours replayed step by step on the real class (each concretisation counts) + recorded "
         "random histories accepted/rejected by TraceStateTrace.tla; distinct_nontrivial: distinct (behaviour, concretisation "
         "seed) pairs and distinct recorded histories (by content hash); every behaviour has >= 1 operation")
+    ph = ctx.extra.setdefault("phase_wall_s", {})
+    t0 = ctx.timer.s()
     exe = build.harness("c14_tracestate", ["c14_tracestate.cc"], "asan", need_sdk=False)
+    ph["build"] = round(ctx.timer.s() - t0, 1)
+    t0 = ctx.timer.s()
     model_check(ctx)
+    ph["model_check"] = round(ctx.timer.s() - t0, 1)
+    t0 = ctx.timer.s()
     behs = generate(ctx)
+    ph["generate"] = round(ctx.timer.s() - t0, 1)
+    t0 = ctx.timer.s()
     ninst = {"parse": 12 if thorough else 4, "bfs2": 2 if thorough else 1, "bfs3": 1, "simulate": 2 if thorough else 1}
     for (w, _, _) in WITNESSES:
         ninst[w] = 10 if thorough else 3
     replay_behs(ctx, exe, behs, ninst)
+    ph["replay"] = round(ctx.timer.s() - t0, 1)
+    t0 = ctx.timer.s()
     record_and_validate(ctx, exe)
+    ph["record_validate"] = round(ctx.timer.s() - t0, 1)
     ctx.evaluations = ctx.traces
 
 
